@@ -259,6 +259,7 @@ func checkC03(c *Ctx) {
 	// the read-only / paused flags the status guards test are updated without losing a concurrent update
 	c.checkAtomicRMW()
 	c.checkLoaderReadsLiveRows("C03.7-loader-reads-live-subscriptions")
+	c.checkSuspensionVisitsEveryTopic()
 	// every changed mode is persisted (the write gate after a reload decides on the stored modes)
 	c.checkUpdateKeysIndependent()
 	// the modes the write gate reads are the ones the handler decided on (not a stale copy)
